@@ -105,14 +105,15 @@ ALL = ["C%02d" % i for i in range(1, 19)]
 
 # sentences appended to the exploration text of a check (later extensions of the generators and oracles)
 EXTRA = {
-    "C18": "Predicates may be boolean members behind a nil-safe step (nil for a nil receiver): both sides of an identity must then fail alike.",
-    "C12": "A literal holding a raw CR / LF must lex to the same value whether or not another character of it is escaped; a character that belongs to no token (U+FEFF, @, ~, backslash, NUL, U+200B, backquote, ^) makes the input an error wherever it stands; U+FEFF and U+10FFFF / U+10FFFE inside literals in every spelling.",
+    "C05": "Sources built from the element pointer and member shorthand inside and outside closures are compiled WITHOUT any type check (parser.Parse + compiler.Compile with a nil configuration, as Eval does): whatever the parser lets through must verify.",
+    "C18": "Predicates may be boolean members behind a nil-safe step (nil for a nil receiver): both sides of an identity must then fail alike. Every case is evaluated by the reference first (skipped beyond its step limit); a watchdog turns a run that then does not return within 4 minutes into a violation.",
+    "C12": "A literal holding a raw CR / LF must lex to the same value whether or not another character of it is escaped; a character that belongs to no token (U+FEFF, @, ~, backslash, NUL, U+200B, backquote, ^) makes the input an error wherever it stands; U+FEFF and U+10FFFF / U+10FFFE inside literals in every spelling. Every layout is also lexed through one long-lived *file.Source re-loaded by its JSON decoding: same tokens, same positions.",
     "C10": "A pair of Patch visitors where the second must work inside the sub-tree the first created.",
     "C07": "Error texts of failing runs are also compared with a never-run copy of the program on a fresh VM (state kept inside Program.Source); budgets include the exact needs of the allocating programs and one more; failing programs with several failure columns on one line around multi-byte characters.",
     "C01": "Also generated: access paths into less common Go shapes (named slice / map types, int-keyed maps, maps of structs, of pointers and of maps, arrays of structs, byte slices, runes, an interface-typed field, time.Duration) whose value an oracle computes directly in Go; NaN, infinities and signed zeros as operand values; patterns built by constant concatenation; every documented spelling of a literal (leading zeros, digit separators, exponent and leading-dot floats, single quotes, \\u escapes); result directives incl. over dynamically typed operands. A watchdog turns a case that does not return within 4 minutes (or holds 8 GB) into a violation: the reference evaluated the same program within 2e6 steps first.",
     "C02": "Also generated: nil-able needles of literal-array membership (nil-safe chains, conditionals with a nil branch), ConstExpr calls with nil arguments, nil results and results that cannot be map keys, array literals passed to a []interface{} parameter, patterns that only folding turns into a (possibly invalid) literal inside unevaluated branches, `#` of an outer closure used after an inner builtin, signed zeros and NaN. Pairs of all-string / all-int array literals whose elements coincide when joined or printed; an array literal after an argument that is itself a call.",
     "C03": "A directed stream adds roots whose static type is exactly int64 / float64 but whose value can be nil (nil-safe chains, conditionals with a nil branch) under the matching directive, and comparisons of an integer with `lit ** lit`.",
-    "C04": "Sources are also laid out over several lines after lines holding multi-byte characters, so that errors are located and their snippets cut out beyond the first line. Environments whose type promises members the value cannot deliver (a nil *struct, a nil embedded pointer), and environment functions that panic with awkward values (an error whose Error method panics, a panicking Stringer, nil, a struct, a very long text).",
+    "C04": "Sources are also laid out over several lines after lines holding multi-byte characters, so that errors are located and their snippets cut out beyond the first line. Environments whose type promises members the value cannot deliver (a nil *struct, a nil embedded pointer), and environment functions that panic with awkward values (an error whose Error method panics, a panicking Stringer, nil, a struct, a very long text). Inputs of up to 64 KiB (30 KiB in the quick tier) made of one construct repeated or nested thousands of times.",
     "C06": "The budget in force while the program is COMPILED is drawn independently of the one in force at the run (tiny, raised, same, default); ranges with literal bounds around the optimiser's preallocation limit are judged by the metamorphic relation 'the outcome of a run depends on the run-time budget only'. Range bounds of integer kinds other than int; large literal ranges in positions the evaluation never reaches (untaken branch, short-circuited operand) must not cause a refusal; the full int64 range.",
     "C08": "The fixed program list includes patterns known at run time only and sources of several lines that fail at run time beyond the first line. Two Operator options for one operator built from a slice with spare capacity are shared by all concurrent compilations; each concurrent Compile+Run must return what it returns alone; result directives whose final conversion fails; constant patterns the process has never compiled.",
     "C13": "Run-time failures are also provoked inside a function that overloads the failing operator (the error is still the operator's), and a long-lived *file.Source is re-loaded through its JSON decoding and must render every line and every bound error like a fresh one. Programs compiled without an environment are held to the position of the missing name only when the error is about that name (open finding F26 can stop such a run earlier).",
